@@ -8,6 +8,13 @@ S2C: every program of scheduling calls up to length L enumerated by TLC is run o
      returned future's exception is logged are left open by the contract).
 C2S: seeded random programs and real multi-threaded add_callback runs, recorded and validated
      by TLC against the Trace_* specifications.
+
+Binding demonstrated during development (scratch worktree, see notes/loop.md): call_at converting
+with the asyncio clock instead of IOLoop.time(); timedelta.seconds for total_seconds(); CancelledError
+logged; returned futures not observed; add_future running done futures inline; run_sync not removing
+its timeout / stopping without waiting for the cancellation; add_callback dropping kwargs;
+remove_timeout ignoring due timers - each reported as VIOLATION by the S2C replay; a swapped pair in a
+recorded execution log / a swapped pair of runs of one thread is rejected by the trace specs.
 """
 import random
 
@@ -212,8 +219,8 @@ def run(ctx):
     ctx.note("runsync_programs", len(rs))
     ctx.replay(rs, runsync_replayer, label="s2c-runsync", nontrivial=lambda e, p: len(p) >= 1)
     # code -> spec: random programs (up to 12 own items, all script kinds and API forms) validated by TLC
-    n = ctx.pick(300, 8000)
-    traces = framework.pool_map(random_sched_trace, [(i + 1, ctx.seed * 1000003 + i, ctx.pick(45, 60)) for i in range(n)])
+    n = ctx.pick(200, 8000)
+    traces = framework.pool_map(random_sched_trace, [(i + 1, ctx.seed * 1000003 + i, ctx.pick(40, 60)) for i in range(n)])
     ctx.validate("loop", "Trace_IOLoopSched", "Trace_IOLoopSched.cfg", traces, label="c2s-sched")
     # code -> spec, real threads: several threads add_callback numbered series while the loop runs
     m = ctx.pick(40, 1000)
